@@ -66,6 +66,30 @@ CHECKS: dict[str, tuple[str, str, str, str, str]] = {
         "TLA+ inference rules (PtInfer) evaluated by TLC on recorded (pytato, NumPy) call "
         "results; exhaustive bounded enumeration of the call product",
         "DESIGN.md section 4 C03"),
+    "C04": (
+        "model_checking",
+        "TLC enumerates (PtEqGen) every concrete node class (27, cross-checked reflectively "
+        "against dataclasses.fields at run time) x every dataclass field x contexts (the node "
+        "itself, under every edge kind, under nested edge pairs) with the members base / "
+        "independently rebuilt / foreign / pickled here and by a process with another hash seed "
+        "/ mapping fields in another insertion order / exactly one field changed; a pool of "
+        "interpreter processes with different PYTHONHASHSEED builds them on the real classes and "
+        "records ==, !=, hash, set and dict membership and cached hashes after unpickling; TLC "
+        "(PtEqCheck) computes structural equality from the reflective export of the real objects "
+        "and judges EqIsStructEq, symmetry, transitivity over all triples, EqualImpliesSameHash "
+        "per process, NoHashCacheAfterUnpickle. Life-cycle behaviours (PtEqLife: "
+        "Build/Mutate1/Hash/Pickle/Unpickle(proc), model-checked, exhaustive to 4/5 "
+        "state-changing events) are replayed across processes and validated as traces; the "
+        "memoised comparison is model-checked as a state machine (PtEqMemo) and real comparer "
+        "traces are judged by its clauses.",
+        "Hash seeds are sampled (4 quick / 16 thorough). Trusted: TLC, the reflective exporter, "
+        "loopy's persistent key as the identity of a translation unit. DataWrapper: the "
+        "specification compares wrapped data by identity of the data object. Contexts are "
+        "bounded to depth 2.",
+        "TLA+ specification of structural equality and of the hash/pickle life cycle; TLC as "
+        "generator, as model checker of the life-cycle and memo state machines, and as evaluator "
+        "of verdict matrices and traces recorded from real processes",
+        "DESIGN.md section 4 C04; notes/eq.md"),
     "C05": (
         "model_checking",
         "Seeded random DAG programs (sharing, structural duplicates, near-duplicates differing "
@@ -207,6 +231,39 @@ CHECKS: dict[str, tuple[str, str, str, str, str]] = {
         "TLC model checking of the equality rule (PtAffine) + TLC validation of recorded "
         "decisions and of inferred shape expressions + execution of one kernel at many sizes",
         "DESIGN.md section 4 C16"),
+    "C17": (
+        "exploration",
+        "For a fixed list of programs given as data (hand-written programs covering sharing, "
+        "reductions, einsum, indexing, named/unnamed data wrappers, function calls, loopy calls, "
+        "nested named results, symbolic sizes; random programs of C01's space; the distributed "
+        "library and simulated DistComm programs) a pool of interpreter processes "
+        "(PYTHONHASHSEED 0..k-1 x two allocation histories) emits, twice each, the canonical "
+        "loopy kernel text, loopy's key of the translation unit, the C source, the Python "
+        "source, and per rank the partition summary + structure and the tag-number map; TLC "
+        "(PtProcess) folds each (artefact, program) trace through Emit and checks SingleValued "
+        "at every step and Witnessed (>= 2 seeds, >= 2 histories, 2 repetitions) at the end; "
+        "mismatches are classified and stored as unified diffs.",
+        "Seeds (4 quick / 16 thorough) and histories are sampled, programs are a fixed list: "
+        "exploration, not exhaustive. All ranks of a world run in one process. loopy's own code "
+        "generation is inside what is compared.",
+        "trace validation of emission events from real interpreter processes against a TLA+ "
+        "specification of single-valuedness with a vacuity guard",
+        "DESIGN.md section 4 C17; notes/eq.md"),
+    "C18": (
+        "model_checking",
+        "The families of C04 (every node class x field x context, rebuilt / pickled / permuted "
+        "members, wrapped data with the same contents in another object, one element changed, "
+        "another dtype or shape with identical bytes) and whole programs with single-node "
+        "changes are keyed by the real PytatoKeyBuilder in processes with different hash seeds, "
+        "before and after pickling and for objects pickled by another process; TLC (PtKey) "
+        "computes the canonical form from the reflective export and checks KeyOK (no collision "
+        "between different canonical forms, no split of identical ones), KeyStablePickle and "
+        "KeyStableProcs.",
+        "Creation-traceback tagging off; pairs differing only in non_equality_tags are "
+        "unconstrained. Seeds sampled. Canon of a loopy translation unit is loopy's own key.",
+        "TLA+ specification of key faithfulness evaluated by TLC on keys and structures exported "
+        "from real processes; exhaustive over (kind, field, context) in the bound",
+        "DESIGN.md section 4 C18; notes/eq.md"),
     "C19": (
         "model_checking",
         "Every index lambda the public API creates for the raisable operations (both operand "
